@@ -230,6 +230,10 @@ static Registry *g_reg = 0;
 static void accResult(const char *ent, const char *attr, const char *kind, bool ok, const std::string &detail = "") {
     std::cout << "ACC " << ent << "." << attr << " " << kind << " " << (ok ? "ok" : "FAIL") << (detail.empty() ? "" : " ") << detail << "\n";
 }
+// a value stored through the generated mutator must be the value on the instance's attribute list (what a Part 21 file gets)
+static void lstResult(const char *ent, const char *owner, const char *attr, const char *kind, bool ok, const std::string &got) {
+    std::cout << "LST " << ent << " " << owner << "." << attr << " " << kind << " " << (ok ? "ok" : "FAIL") << " listed=" << got << "\n";
+}
 static SDAI_Application_instance *mk(const char *pretty) {
     SDAI_Application_instance *i = g_reg->ObjCreate(pretty);
     return (i == S_ENTITY_NULL) ? 0 : i;
